@@ -233,6 +233,41 @@ class Program:
                 except Exception:
                     pass
 
+        self.spliced = {}          # key of a helper that was looked through -> key of the function it was spliced into
+        if os.environ.get("VERIF_NO_INLINE") != "1":
+            self._look_through_new_helpers()
+
+    def _look_through_new_helpers(self):
+        """Program-level normalisation (engine/blue/inline.py): every private single-use helper that is not in the frozen table of known
+        functions is spliced into its one caller and disappears as a function of its own, for every rule alike.  A no-op on the tree the
+        rules were written on."""
+        from . import inline as _I
+        if _I.known_fns() is None:
+            return
+        gone = {}
+        repl = {}
+        for f in list(self.fns.values()):
+            v = _I.view(self, f)
+            if v is not f:
+                repl[f.key] = v
+                for gk in getattr(v, "inlined_keys", ()):
+                    gone[gk] = f.key
+        if not repl:
+            return
+        for k, v in repl.items():
+            old = self.fns[k]
+            self.fns[k] = v
+            self.by_skey[v.skey] = [v if x is old else x for x in self.by_skey[v.skey]]
+        for gk, into in gone.items():
+            g = self.fns.pop(gk, None)
+            if g is not None:
+                self.by_skey[g.skey] = [x for x in self.by_skey[g.skey] if x is not g]
+                self.spliced[gk] = into
+        self._callgraph = None
+        self._closures_of = None
+        self._inline_sites = None
+        self._inline_views = {}
+
     # ------------------------------------------------------------------------------------------
     def fn(self, key):
         """Look a function up by exact key or by generic-stripped key (must be unique)."""
